@@ -44,15 +44,15 @@ def run(tier, runner):
     r_ci.require(5, 'FlatSet constructors taking a comparator or a set, and swap')
     r_mo = sets.merge_order(progs)
     r_mo.findings = [f for f in r_mo.findings if 'FlatSet' in f.key]
-    r_mo.require(2, 'merge cursors')
+    r_mo.require(1, 'merge cursors')
     w = const_view_witnesses()
     r_w = witness.run_witnesses(runner, w, [(17, True, False)] if tier == 'quick' else [(11, True, False), (14, True, False), (17, True, False), (20, True, False)],
                                 ['clang++'] if tier == 'quick' else ['clang++', 'g++'],
                                 {'CONST-VIEW': 'no API of FlatSet hands out mutable access to the sorted storage', 'SIG': 'result types equal std::set\'s modulo the iterator type'})
-    r_cmp.require(8, 'FlatSet functions using the comparator')
+    r_cmp.require(5, 'FlatSet functions using the comparator')
     r_node.require(2, 'insert(node) overloads')
-    r_stable.require(4, 'sorts feeding duplicate removal')
-    r_inv.require(4, 'bulk writers')
+    r_stable.require(2, 'sorts feeding duplicate removal')
+    r_inv.require(2, 'bulk writers')
     r_search.require(10, 'lookup members')
     r_np = sets.node_pos(progs)
     r_np.findings = [f for f in r_np.findings if 'FlatSet' in f.key]
